@@ -30,7 +30,7 @@ def replay(case) -> dict:
     cfg = case["cfg"]
     n, b, s = cfg["n"], cfg["b"], tuple(cfg["s"])
     scale = (1.0, 0.5, 2.0)[case["_h"] % 3]
-    desc = dict(b=b, s=list(s), kind=cfg["kind"], lazy=cfg["lazy"], compute=cfg["compute"], order=cfg["order"], scale=scale)
+    desc = dict(b=b, s=list(s), kind=cfg["kind"], lazy=cfg["lazy"], mix=cfg.get("mix", False), compute=cfg["compute"], order=cfg["order"], scale=scale)
     failures = []
     pos_px = np.array(case["orig_p2"], dtype=np.float64) / 2.0
     rot = Rotation.from_matrix(np.array([cfg["R"]], dtype=float))
@@ -45,7 +45,7 @@ def replay(case) -> dict:
         which = 0
     else:
         parent = BatchLoader(order=cfg["order"], scale=scale, output_shape=s)
-        parent.add_tomogram(wrap(imgs[0]), Molecules(np.array([[1.0, 1.0, 1.0]]) * scale))
+        parent.add_tomogram(imgs[0] if cfg.get("mix") else wrap(imgs[0]), Molecules(np.array([[1.0, 1.0, 1.0]]) * scale))
         parent.add_tomogram(wrap(imgs[1]), mole)
         which = 1
     pos_before = np.array(parent.molecules.pos, copy=True)
@@ -66,6 +66,18 @@ def replay(case) -> dict:
         for key, im in binned.images.items():
             if not hasattr(im, "shape") or list(im.shape) != list(case["binned_shape"]):
                 failures.append(dict(desc, clause="BinnedImageCorrupt", image=str(key), observed=repr(im)[:60]))
+    # every image of the binned loader is the block sum of ITS OWN original (integer-valued tomograms: exact)
+    def blocksum(a):
+        m = [d // b * b for d in a.shape]
+        a = a[: m[0], : m[1], : m[2]].astype(np.float64)
+        return a.reshape(m[0] // b, b, m[1] // b, b, m[2] // b, b).sum(axis=(1, 3, 5))
+
+    for key, im in ([(0, binned.image)] if cfg["kind"] == "single" else list(binned.images.items())):
+        if hasattr(im, "shape") and list(im.shape) == list(case["binned_shape"]):
+            got_im = np.asarray(im, dtype=np.float64)
+            want_im = blocksum(imgs[int(key)])
+            if got_im.shape != want_im.shape or np.max(np.abs(got_im - want_im)) > 1e-3 * max(1.0, float(np.abs(want_im).max())):
+                failures.append(dict(desc, clause="BinnedImageIsBlockSum", image=str(key)))
     if failures:
         return dict(failures=failures)
     idx = 0 if cfg["kind"] == "single" else 1
@@ -95,7 +107,7 @@ def run(rep: engine.Report, tier: str, seed: int):
     for i, c in enumerate(cases):
         c["_h"] = (i * 31 + seed) % 3
     budget = 1500 if tier == "quick" else len(cases)
-    sel = engine.stratified_sample(cases, lambda c: (c["cfg"]["b"], tuple(c["cfg"]["s"]), c["cfg"]["kind"], c["cfg"]["lazy"], c["cfg"]["compute"]), budget, seed)
+    sel = engine.stratified_sample(cases, lambda c: (c["cfg"]["b"], tuple(c["cfg"]["s"]), c["cfg"]["kind"], c["cfg"]["lazy"], c["cfg"]["mix"], c["cfg"]["compute"]), budget, seed)
     rep.exhaustive = len(sel) == len(cases)
     results = engine.parallel_replay("harness.props.c15", "replay", sel)
     engine.collect(rep, sel, results, key=lambda c: c["cfg"])
